@@ -492,7 +492,7 @@ def run_pending_response(ctx: Ctx, hc, only=None):
             msgs, _ = ref.split_messages(tr.data())
             proto.data_received(pv_client.http_post("/pair-verify", v.m3(msgs[-1][3])))
             rig.loop.settle()
-            if tr.closed or proto.hap_crypto is None:
+            if tr.closed:
                 ctx.fail("C04:session-not-established", "an honest pair-verify did not secure the connection", rep)
                 continue
             key = ref.hkdf(v.shared, ref.SALT, ref.C2A)
